@@ -82,6 +82,8 @@ def gen_channel(rng, bnodes):
     ch["rebind"] = rng.random() < 0.3            # prefix labels re-bound in the middle of a document
     ch["magic_names"] = rng.random() < 0.3       # file names containing '[' and ']'
     ch["comments"] = rng.choice([0, 0, 1, 3])    # comment and blank lines between statements
+    if tr == "files" and rng.random() < 0.3:
+        ch["special_member"] = rng.randrange(ch["parts"])
     if tr in ("gz", "xz") and rng.random() < 0.35:
         ch["members"] = rng.randint(2, 3)
     if tr == "zip" and rng.random() < 0.5:
@@ -188,8 +190,11 @@ def build_channel(sim, triples, ch, tag):
         kw["graph_file_input"] = sim.write_file("%s.%s" % (tag, ext), docs[0])
     elif tr == "files":
         # legal file names that a glob expansion would not match literally
-        kw["graph_list_of_files_input"] = [sim.write_file(("%s_part[%d].%s" if ch.get("magic_names") else "%s_%d.%s") % (tag, i, ext), d)
-                                           for i, d in enumerate(docs)]
+        # (and, for the line-reader formats, one member that is a special file: size 0 for stat(), content for read())
+        kw["graph_list_of_files_input"] = [
+            (sim.write_special_file if (ch.get("special_member") == i and fmt in ("nt", "tsv_spo", "turtle_iter")) else sim.write_file)(
+                ("%s_part[%d].%s" if ch.get("magic_names") else "%s_%d.%s") % (tag, i, ext), d)
+            for i, d in enumerate(docs)]
     elif tr in ("gz", "xz"):
         paths = []
         for i, d in enumerate(docs):
